@@ -10,6 +10,9 @@ writes {"events": [...], "texts": {sha: masked text}} to job["out"].
 
   mode "parse"   for every requested predicate: ParseFile (fresh rules object),
                  LogicaProgram, FormattedPredicateSql.
+  entry["run"]   after a successful compilation the statements are executed
+                 on an in-memory SQLite (failures caught and recorded in
+                 "exec"; the digests stay those of the SQL text).
   mode "reuse"   the process keeps ONE parsed rules object per program; every
                  requested predicate is compiled from it (new LogicaProgram per
                  predicate, as logica.py does).  When the object has not been
@@ -124,6 +127,26 @@ class Process:
     return self.parse.ParseFile(entry['text'],
                                 import_root=entry.get('import_root'))['rule']
 
+  def Execute(self, execution):
+    """Runs the compiled statements on an in-memory SQLite the way
+    `logica.py run` does; only whether it failed is recorded (the step is there
+    for what a failing execution may leave behind in the process)."""
+    try:
+      from common import sqlite3_logica
+      con = sqlite3_logica.SqliteConnect()
+      cur = con.cursor()
+      cur.executescript(execution.preamble)
+      for st in execution.defines_and_exports:
+        cur.executescript(st)
+      cur.execute(execution.main_predicate_sql)
+      cur.fetchall()
+      con.close()
+      return 'ok'
+    except BaseException as e:  # pylint: disable=broad-except
+      if isinstance(e, KeyboardInterrupt):
+        raise
+      return 'error:' + type(e).__name__
+
   def Keep(self, text):
     sha = Sha(text)
     self.texts.setdefault(sha, text)
@@ -133,17 +156,23 @@ class Process:
     sink = io.StringIO()
     aux_v = aux_o = ''
     n_iter = 0
+    parse_failed = False
+    exec_status = ''
     self.rec_modes = []
     cpu0 = time.process_time()
     with contextlib.redirect_stdout(sink), contextlib.redirect_stderr(sink):
       try:
+        parse_failed = True
         rules = rules_fn()
+        parse_failed = False
         program = self.universe.LogicaProgram(
             rules, user_flags=dict(entry.get('user_flags') or {}))
         raw = program.FormattedPredicateSql(pred)
         aux_v, aux_o = AuxOf(program.execution)
         status = 'ok'
         n_iter = len(getattr(program.execution, 'iterations', None) or {})
+        if entry.get('run'):
+          exec_status = self.Execute(program.execution)
       except BaseException as e:  # pylint: disable=broad-except
         if isinstance(e, KeyboardInterrupt):
           raise
@@ -157,7 +186,7 @@ class Process:
     aux_m = Mask(aux_v)
     self.events.append({
         'prog': entry['idx'], 'pred': pred, 'mode': mode, 'used': bool(used),
-        'status': status,
+        'status': status, 'exec': exec_status, 'parse_failed': parse_failed,
         'sql': self.Keep(text), 'aux': self.Keep(aux_m),
         'ord': Sha(Mask(aux_o)),
         'stop': bool(MASK_RE.search(raw) or MASK_RE.search(aux_v)),
@@ -191,7 +220,8 @@ class Process:
       if prog not in self.store:
         return self.Parse(entry)   # a parse that failed before is retried
       return self.store[prog]
-    passes = 1 if self.used[prog] else 2
+    # a text that does not parse leaves no rules object: one pass, retried
+    passes = 1 if (self.used[prog] or failed) else 2
     for _ in range(passes):
       for pred in entry['preds']:
         self.One(entry, pred, mode, Rules, self.used[prog])
